@@ -19,6 +19,7 @@
 using namespace drv;
 namespace cc = cds::container;
 static CdsInit s_init;
+bool drv::g_cs_points = false;
 static int g_hash_mode = 0; static size_t g_htab[64];
 size_t drv::item_hash::hash_of(int k) {
   switch (g_hash_mode) { case 1: return 7; case 2: return (size_t)(k % 2); case 3: return ((size_t)k << 60) | ((size_t)(k & 1) << 8) | 5;   // differ only in the top bits / one middle bit
